@@ -95,6 +95,8 @@ def configs(tier):
         add(group='base', d=2, q=1, m=0, T=3, mode=mode, imputer='joint', storage='geometric', cap=2)
         add(group='base', d=1, q=2, m=0, T=T, mode=mode, imputer='product', storage='uniform', cap=2)
         add(group='base', d=2, q=1, m=0, T=3, mode=mode, imputer='joint', storage='batch', labels=2)
+        add(group='base', d=2, q=2, m=0, T=6 if tier == 'quick' else 8, mode=mode, imputer='default', storage='geometric', cap=2,
+            alpha_value='1/4', _cost=200)
     return cfgs
 
 
